@@ -80,7 +80,7 @@ def split_model(pres, kind, param, a0, a1, pre, post, relative, nstored=None):
 @st.composite
 def split_req(draw, S):
     kind = draw(st.sampled_from(["uniform", "uniform", "nonuniform", "equal", "unequal", "div", "floordiv"]))
-    r = {"kind": kind, "relative": draw(st.booleans()),
+    r = {"kind": kind, "relative": draw(st.booleans()), "by_rankid": draw(st.booleans()),
          "pre": draw(st.sampled_from([0, 0, 0, 1, 2, S])), "post": draw(st.sampled_from([0, 0, 0, 1, 2, S]))}
     if kind == "uniform":
         r["param"] = draw(st.integers(1, S + 1))
@@ -124,7 +124,10 @@ def cases(draw):
 def call_split(obj, req, depth):
     k, p = req["kind"], req["param"]
     kw = dict(relativeCoords=req["relative"], pre_halo=req["pre"], post_halo=req["post"])
-    if depth:
+    if req.get("by_rankid") and hasattr(obj, "getRankIds") and hasattr(obj, "ranks") \
+            and isinstance(obj.getRankIds()[depth], str):
+        kw["rankid"] = obj.getRankIds()[depth]          # a tensor's rank may be named instead of counted
+    elif depth:
         kw["depth"] = depth
     if k == "uniform":
         return obj.splitUniform(p, **kw)
